@@ -85,3 +85,8 @@ lemma("day.floor", {"a": "int", "r": "real", "x": "real"},
 lemma("day.floor.int", {"a": "int", "r": "int", "x": "int"},
       "a == x // 86400 and r == x - 86400 * (x // 86400)",
       assumes=["0 <= r and r < 86400", "86400 * a + r == x"])
+
+lemma("mul.mono", {"a": "int", "b": "int", "L": "real"},
+      "((a * L > b * L) == (a > b)) and ((a * L == b * L) == (a == b))",
+      assumes=["L > 0"], modes=["gregorian"],
+      note="multiplication by a positive interval length is strictly monotone")
